@@ -1,5 +1,6 @@
 #![allow(dead_code)]
 mod util;
+mod p10;
 mod p23;
 mod p25;
 mod p29;
@@ -31,6 +32,7 @@ fn main() {
     std::panic::set_hook(Box::new(|_| {}));
     let mut ctx = Ctx::new(&prop, &tier, seed, out);
     match prop.as_str() {
+        "C10" => p10::run(&mut ctx),
         "C23" => p23::run(&mut ctx),
         "C25" => p25::run(&mut ctx),
         "C29" => p29::run(&mut ctx),
